@@ -77,6 +77,36 @@ m("M18f_try_only_direct", ["C18"], [("pdf/src/error.rs", "PdfError::Try { ref so
    "PdfError::Try { ref source, .. } | PdfError::FromPrimitive { ref source, .. } => matches!(**source, PdfError::NullRef { .. } | PdfError::FreeObject { .. } | PdfError::UnspecifiedXRefEntry { .. }),")],
   expect="C18-ERR", note="looks through one level of wrapping only; needs a doubly wrapped error (t! inside a derived reader)")
 
+# ------------------------------------------------------------------ C06
+m("M06a_key16", ["C06"], [("pdf/src/crypt.rs", "t!(Aes256CbcDec::new_from_slices(&self.key, iv)", "t!(Aes256CbcDec::new_from_slices(&self.key[..self.key_size.min(16)], iv)")],
+  expect="C06-TS")
+m("M06b_decrypt_after", ["C06"], [("pdf/src/file.rs",
+   "        if let Some(ref decoder) = self.decoder {\n            data = Vec::from(t!(decoder.decrypt(id, &mut data)));\n        }\n        for filter in filters {\n            data = t!(decode(&data, filter), filter);\n        }",
+   "        for filter in filters {\n            data = t!(decode(&data, filter), filter);\n        }\n        if let Some(ref decoder) = self.decoder {\n            data = Vec::from(t!(decoder.decrypt(id, &mut data)));\n        }")],
+  expect="C06-G1")
+m("M06c_no_encrypt_exempt", ["C06"], [("pdf/src/crypt.rs",
+   "        if self.encrypt_indirect_object == Some(id) {\n            // Strings inside the /Encrypt dictionary are not encrypted\n            return Ok(data);\n        }\n", "")],
+  expect="C06-G2")
+m("M06d_r5_other_error", ["C06"], [("pdf/src/crypt.rs",
+   "                        (intermediate_kdf_hash.finalize(), oe)\n                    } else {\n                        err!(PdfError::InvalidPassword);",
+   "                        (intermediate_kdf_hash.finalize(), oe)\n                    } else {\n                        err!(PdfError::DecryptionFailure);")],
+  expect="C06-G3")
+m("M06e_metadata_always", ["C06"], [("pdf/src/crypt.rs", "if !self.encrypt_metadata && self.metadata_indirect_object == Some(id) {", "if self.metadata_indirect_object == Some(id) {")],
+  expect="C06-G2", note="metadata stream returned undecrypted although EncryptMetadata is true")
+m("M06f_wrong_id", ["C06"], [("pdf/src/parser/parse_object.rs",
+   "    let ctx = Context {\n        decoder,\n        id,\n    };\n    let obj = t!(parse_with_lexer_ctx",
+   "    let ctx = Context {\n        decoder,\n        id: PlainRef { id: id.id, gen: 0 },\n    };\n    let obj = t!(parse_with_lexer_ctx")],
+  expect="C06-PROV", note="needs an object with non-zero generation")
+m("M06g_xref_decoder", ["C06"], [("pdf/src/parser/parse_xref.rs", "let xref_stream = t!(parse_indirect_stream(lexer, resolve, None)).1;", "let xref_stream = t!(parse_indirect_stream(lexer, resolve, resolve.options().allow_xref_error.then(|| unreachable!()))).1;")],
+  expect="C06-G2", note="(artificial) decoder argument no longer the constant None")
+m("M06h_accept_fallthrough", ["C06"], [("pdf/src/crypt.rs",
+   "                if check_password_rc4(level, dict.u.as_bytes(), id, &key[..key_size]) {\n                    let decoder = Decoder::new(key, key_size, method, dict.encrypt_metadata);\n                    Ok(decoder)\n                } else {\n                    Err(PdfError::InvalidPassword)\n                }",
+   "                let _ = check_password_rc4(level, dict.u.as_bytes(), id, &key[..key_size]);\n                let decoder = Decoder::new(key, key_size, method, dict.encrypt_metadata);\n                Ok(decoder)")],
+  expect="C06-G3", note="any owner password accepted for RC4 documents")
+m("M06i_aesv2_rc4", ["C06"], [("pdf/src/crypt.rs", "                    CryptMethod::V2 | CryptMethod::AESV2 => (\n                        default.length.map(|n| 8 * n).unwrap_or(dict.bits),\n                        default.method,\n                    ),",
+   "                    CryptMethod::V2 | CryptMethod::AESV2 => (\n                        default.length.map(|n| 8 * n).unwrap_or(dict.bits),\n                        CryptMethod::V2,\n                    ),")],
+  expect=None, note="AESV2 documents decrypted with RC4 — value-level method selection; expected to be missed by structure rules unless TABLE covers from_password")
+
 
 def gen_patch(mu):
     files = {}
